@@ -51,11 +51,14 @@ def suites():
         "x_seg3d": (variant("seg3d", "x_seg3d"), 40, 600),
         # an 8-bit label array whose nodes carry track ids beyond 8 bits (real id = model id + 300): the exported
         # array is labelled by track id, so its dtype cannot be the source's
+        # states after enable / disable calls (a core feature may be switched off): save / load keeps the registry
+        "x_featns": (variant("featns", "x_featns", formats=["internal"]), 80, 800),
+        "x_feat13": (variant("feat13", "x_feat13", formats=["internal"]), 60, 600),
         "x_seg13b": (variant("seg13", "x_seg13b", rebuild={"shift": -300}, seg_dtype="uint8"), 40, 600),
     }
 
 
-PLAN = {"C14": ["x_struct4", "x_struct0", "x_structc", "x_peraxis", "x_seg13", "x_seg13n", "x_seg3d"],
+PLAN = {"C14": ["x_struct4", "x_struct0", "x_structc", "x_peraxis", "x_seg13", "x_seg13n", "x_seg3d", "x_featns", "x_feat13"],
         "C15": ["x_struct4", "x_struct0", "x_seg13e", "x_seg13f", "x_seg3d", "x_seg13b"],
         "C16": ["x_struct4", "x_struct0", "x_peraxis", "x_structz", "x_seg13e", "x_seg13f", "x_seg13n", "x_seg3d"]}
 
